@@ -37,7 +37,8 @@ Inductive mev :=
 | MReload
 | MReloadFail                                  (* Server.Reload failed (volume.meta not writable): nothing changes *)
 | MUlm (mid : list (nat * list N))             (* UpdateLUNMap; [mid] lands after the preload, before the merge *)
-| MUlmRace (ws : list (nat * list N)).         (* UpdateLUNMap against a free writer: serialised writes-first *)
+| MUlmRace (ws : list (nat * list N))          (* UpdateLUNMap against a free writer: serialised writes-first *)
+| MUlmFail (i : nat).                          (* UpdateLUNMap whose preload fails at member i: the error is returned *)
 
 Definition flush (s : rb) : rb :=
   mkrb (set_fl (src s) (apply_holes (fl (src s)) (spend s) [])) []
@@ -57,6 +58,7 @@ Definition expand_mev (s : rb) (m : mev) : list ev :=
   | MReloadFail => []
   | MUlm mid => UlmBegin :: ulm_pre_all (dst s) ++ map bw mid ++ [UlmMerge]
   | MUlmRace ws => map bw ws ++ ulm_all (dst s)
+  | MUlmFail i => UlmBegin :: ulm_pre_until (dst s) i
   end.
 
 (** coverage bits gathered while a case runs (model side):
@@ -82,6 +84,7 @@ Definition mev_run (fx : bool) (K : nat) (s : rb) (m : mev) : rb * list bool :=
       let sb := run fx K s (map bw ws) in
       let s1 := run fx K sb (ulm_all (dst s)) in
       (s1, [ false; false; length (dpend sb) <? length (dpend s1); false; false; false ])
+  | MUlmFail _ => (ulm_abort (run fx K s (expand_mev s m)), [])
   | MBoth _ _ | MSrc _ _ =>
       let s1 := run fx K s (expand_mev s m) in (s1, [ negb (length (spend s1) =? 0) ])
   | _ => (run fx K s (expand_mev s m), [])
@@ -251,15 +254,18 @@ Fixpoint unaligned_split (K : nat) (ms : list mev) (after : bool) : bool * bool 
   end.
 
 (** does the flow the model predicts run to its end?  a failed step must have been repeated successfully *)
-Fixpoint flow_ok (ms : list mev) (ci rl : bool) : bool :=
+Fixpoint flow_ok3 (ms : list mev) (ci rl ul : bool) : bool :=
   match ms with
-  | [] => negb ci && negb rl
-  | MCloneInfoFail _ _ :: r => flow_ok r true rl
-  | MCloneInfo _ :: r => flow_ok r false rl
-  | MReloadFail :: r => flow_ok r ci true
-  | MReload :: r => flow_ok r ci false
-  | _ :: r => flow_ok r ci rl
+  | [] => negb ci && negb rl && negb ul
+  | MCloneInfoFail _ _ :: r => flow_ok3 r true rl ul
+  | MCloneInfo _ :: r => flow_ok3 r false rl ul
+  | MReloadFail :: r => flow_ok3 r ci true ul
+  | MReload :: r => flow_ok3 r ci false ul
+  | MUlmFail _ :: r => flow_ok3 r ci rl true
+  | MUlm _ :: r | MUlmRace _ :: r => flow_ok3 r ci rl false
+  | _ :: r => flow_ok3 r ci rl ul
   end.
+Definition flow_ok (ms : list mev) (ci rl : bool) : bool := flow_ok3 ms ci rl false.
 
 (** what the destination serves: after its Reload the chain the directory holds, before it its own chain *)
 (** (a clone that has not reloaded yet still works on its head alone, whatever UpdateCloneInfo wrote) *)
@@ -299,7 +305,7 @@ Definition check_rcase_v (fx : bool) (c : rcase) : rverdict :=
              (bits (orl fl0 [false; false; false; false; false; false;
                              match rc_fork c with Some _ => true | None => false end; ua; ub; autodiff;
                              negb mdone;
-                             existsb (fun m => match m with MCloneInfoFail _ _ | MReloadFail => true | _ => false end) (rc_ev c) && mdone]) 1).
+                             existsb (fun m => match m with MCloneInfoFail _ _ | MReloadFail | MUlmFail _ => true | _ => false end) (rc_ev c) && mdone]) 1).
 
 (** (case index, difference code, oracle) of every case that differs or fails; and the coverage words *)
 Fixpoint bad_rcases_v (fx : bool) (i : nat) (cs : list rcase) : list (nat * nat * nat) :=
